@@ -16,12 +16,15 @@ AllMod == [kind : {"m"}, name : 1..NN, op : ModOps, val : 1..NV, sp : 0..1, sep 
 \* lists of two or three edits are built from a strided sub-family (every form x form x separator combination still occurs)
 Sub(S, a) == LET q == SetToSeq(S) IN SelectSeq(q, LAMBDA e : (e.val + 2 * e.name + 3 * e.sep + e.sp) % Stride = a)
 
-\* a list is spellable unless a computed edit ('&name=') follows a parenthesised value without a comma:
-\* there the '&' continues the parenthesised expression as a bitwise operator
+\* A value that begins with '(' is parsed with the full language, and not only up to its ')': without a comma a following computed
+\* edit ('&name=') continues it as a bitwise operator, and a following name that begins like a dice operator ('dex') as a dice term.
+\* The edit list says otherwise (known finding KF-C18-1): such lists are generated and marked, not left out.
 IsParen(v) == Values[v].src \in {"(1+2)", "(2*3)"}
-Spellable(es) == \A i \in 1..(Len(es) - 1) :
-                   ~(es[i + 1].kind = "a" /\ es[i + 1].form = "c" /\ IsParen(es[i].val) /\ es[i].sep \in {0, 1})
-Case(es) == [spell |-> Spell(es), exp |-> Expected(es), n |-> Len(es), ok |-> Spellable(es)]
+RunsOn(es) == \E i \in 1..(Len(es) - 1) :
+                /\ IsParen(es[i].val) /\ es[i].sep \in {0, 1}
+                /\ \/ es[i + 1].kind = "a" /\ es[i + 1].form = "c"
+                   \/ Names[es[i + 1].name].id = 7
+Case(es) == [spell |-> Spell(es), exp |-> Expected(es), n |-> Len(es), ok |-> TRUE, runon |-> RunsOn(es)]
 
 Singles(S) == LET q == SetToSeq(S) IN [i \in 1..Len(q) |-> Case(<<q[i]>>)]
 Pairs(S) == LET x == Sub(S, 0)
